@@ -1447,6 +1447,10 @@ def _load_memmap(cls, prefix: Path, metadata: dict, **kwargs):
     if os.path.exists(prefix / "other.pickle"):
         with open(prefix / "other.pickle", "rb") as pickle_file:
             non_tensordict.update(pickle.load(pickle_file))
+    out = kwargs.pop("out", None)
+    if out is not None:
+        # load_memmap_: write into the destination's tensordict
+        kwargs["out"] = out._tensordict if is_tensorclass(out) else out
     if os.path.exists(prefix / "_tensordict"):
         td = TensorDict.load_memmap(
             prefix / "_tensordict", **kwargs, non_blocking=False
@@ -1455,6 +1459,9 @@ def _load_memmap(cls, prefix: Path, metadata: dict, **kwargs):
         if not issubclass(cls, NonTensorData):
             raise ValueError("The _tensordict directory seems to be missing.")
         td = TensorDict(batch_size=batch_size, device="cpu")
+    if out is not None and is_tensorclass(out):
+        out._non_tensordict.update(non_tensordict)
+        return out
     return cls._from_tensordict(td, non_tensordict)
 
 
